@@ -95,7 +95,7 @@ class TicketType(MichelsonType, prim='ticket', args_len=1):
         return self
 
     def split(self, amount_left: int, amount_right: int) -> Optional[Tuple['TicketType', 'TicketType']]:
-        if amount_left + amount_right != self.amount:
+        if amount_left <= 0 or amount_right <= 0 or amount_left + amount_right != self.amount:
             return None
         else:
             left = TicketType(ticketer=self.ticketer, item=copy(self.item), amount=amount_left)
